@@ -101,6 +101,8 @@ def apply(store, op):
     t = op[0]
     if t in ('set', 'oset'):
         _, kind, path, value, index = op
+        if value is None:
+            return None         # a NULL string: executed (sanitizers, hygiene), its meaning is not described
         o = _opt(store, path)
         if o is None or not _kind_ok(o, kind) or o.decl.kind in ('sec', 'func', 'ptr'):
             return FAIL
